@@ -427,7 +427,7 @@ PROPS['C07'] = {
     'note': 'Assumes RI-TILING of the input file, A-REFERENCESF (classification proved in C14), A-DICT-OF-LISTS, the list '
             'multiset model. Garbage as of the pack time that a later state references again WITHOUT writing it is '
             'removed (allowed by the first sentence of the property; the harness exempts exactly those objects).',
-    'design_ref': 'DESIGN.md section 5 C07',
+    'design_ref': 'DESIGN.md sections 5 C07 and 10.3',
 }
 
 PROPS['C08'] = {
@@ -464,7 +464,7 @@ PROPS['C08'] = {
             'closes the packer files on every path. BOUNDED only: real thread schedules, crash images, failure injection.',
     'note': 'NOT covered deductively: the schedule quantifier (T3: code between lock operations is atomic). A-DIRECTORY, '
             'A-PACKER-RESULT, A-FILEPOOL assumed. F8 (flag stuck) fixed; F6 (non-atomic swap) open.',
-    'design_ref': 'DESIGN.md section 5 C08',
+    'design_ref': 'DESIGN.md sections 5 C08 and 10.3',
 }
 
 PROPS['C11'] = {
@@ -499,7 +499,7 @@ PROPS['C11'] = {
     'note': 'Assumes A-PERSISTENT, A-PICKLECACHE (C code) and CONNINV (representation invariant of the connection, not '
             'proved to be preserved by _store_objects). F20 (add with refused join) and F21 (new object that never '
             'reached the cache kept oid and jar after a failed commit) were produced by this check and are fixed.',
-    'design_ref': 'DESIGN.md section 5 C11',
+    'design_ref': 'DESIGN.md sections 5 C11 and 10.3',
 }
 
 NOT_YET = {}
